@@ -1,0 +1,30 @@
+//go:build verif
+
+// Verification hook (build tag `verif`): leases can be made older, as if time had passed, so that
+// a conformance history can let them run out without waiting an hour.
+
+package prefix
+
+import (
+	"sync"
+	"time"
+)
+
+var verifHandlers sync.Map
+
+func verifSeen(h *Handler) { verifHandlers.Store(h, struct{}{}) }
+
+// VerifAgeLeases makes every lease recorded so far by every handler d older
+func VerifAgeLeases(d time.Duration) {
+	verifHandlers.Range(func(k, _ interface{}) bool {
+		h := k.(*Handler)
+		h.Lock()
+		for _, ls := range h.Records {
+			for i := range ls {
+				ls[i].Expire = ls[i].Expire.Add(-d)
+			}
+		}
+		h.Unlock()
+		return true
+	})
+}
